@@ -334,6 +334,20 @@ class MiniNumpy:
             raise Unsupported("**kwargs")
         name = self._np_func(e.func)
         args = list(e.args)
+        # np.add.outer(a, b) / np.multiply.outer(a, b): out[i][j] = a[i] (+|*) b[j]
+        if isinstance(e.func, ast.Attribute) and e.func.attr == "outer" and isinstance(e.func.value, ast.Attribute) and e.func.value.attr in ("add", "multiply", "subtract") \
+                and isinstance(e.func.value.value, ast.Name) and e.func.value.value.id in self.np_names and len(args) == 2:
+            a, b = self._as_arr(self.ev(args[0], env)), self._as_arr(self.ev(args[1], env))
+            if len(a.shape) != 1 or len(b.shape) != 1:
+                raise Unsupported("outer of non-vectors")
+            op = e.func.value.attr
+            rows = []
+            for x in a.data:
+                row = []
+                for y in b.data:
+                    row.append(f_add(x, y) if op == "add" else f_add(x, y, -1) if op == "subtract" else f_mul(x, y))
+                rows.append(tuple(row))
+            return Arr(tuple(rows))
         if isinstance(e.func, ast.Name):
             fn = e.func.id
             if fn == "range":
